@@ -14,6 +14,8 @@ import (
 	"runtime/debug"
 	"strings"
 	"sync/atomic"
+	"testing"
+	"testing/synctest"
 	"time"
 
 	"github.com/aquilax/hranoprovod-cli/cmd/hranoprovod-cli/v3/hrapp"
@@ -62,9 +64,97 @@ func startWatchdog(limit time.Duration) {
 	}()
 }
 
-// Exec runs the real application (hrapp.GetApp, the unmodified constructor of
+// goSched: the instrumenter found goroutines (go func(){...}) in the code under test outside the
+// channel parser. Then every whole-CLI run happens inside a synctest bubble under the cooperative
+// scheduler, so that the order in which those goroutines run is the world's, not the host's.
+var goSched = goSitesOutsideParser(os.Getenv("HRSIM_INSTR"))
+
+func goSitesOutsideParser(path string) bool {
+	if path == "" {
+		return false
+	}
+	b, err := os.ReadFile(path)
+	if err != nil {
+		return false
+	}
+	var rep struct {
+		Rewritten []struct{ Rule, Pos, What string } `json:"rewritten"`
+	}
+	if json.Unmarshal(b, &rep) != nil {
+		return false
+	}
+	for _, s := range rep.Rewritten {
+		if s.Rule == "R7" && s.What == "go func" && !strings.HasPrefix(s.Pos, "parser/parser.go:") && !strings.Contains(s.Pos, "/hrapp/") {
+			return true
+		}
+	}
+	return false
+}
+
+// Exec runs the real application on world w: directly, or - when the code under test starts
+// goroutines of its own - inside a bubble under a schedule derived from the world.
+func Exec(w World) *Result {
+	enterSUT() // (outside the bubble: inside it time.Now is the fake clock)
+	defer leaveSUT()
+	if !goSched {
+		return execPlain(w)
+	}
+	h := verifsim.HashString(hashOf(w))
+	plan := make([]int, 12)
+	for i := range plan {
+		plan[i] = int((h >> (uint(i) * 5)) & 7)
+	}
+	var res *Result
+	deadlock := ""
+	func() {
+		defer func() {
+			if r := recover(); r != nil {
+				deadlock = fmt.Sprint(r)
+			}
+		}()
+		synctest.Test(curT, func(t *testing.T) {
+			sch := newCoop(plan)
+			sch.install()
+			defer sch.uninstall()
+			done := make(chan struct{})
+			go func() { res = execPlain(w); close(done) }()
+			idle := int64(0)
+			for idle < 1<<42 {
+				synctest.Wait()
+				select {
+				case <-done:
+					return
+				default:
+				}
+				if g := sch.take(sch.next()); g != nil {
+					idle = 0
+					close(g.ch)
+					continue
+				}
+				d := int64(1024)
+				if idle > 0 {
+					d = idle
+				}
+				idle += d
+				time.Sleep(time.Duration(d))
+			}
+		})
+	}()
+	verifsim.SetYieldHook(nil)
+	verifsim.SetSelectHook(nil)
+	if res == nil {
+		// the command never returned although nothing can move any more
+		if st := verifsim.Current(); st != nil {
+			st.Uninstall()
+		}
+		res = &Result{ExitCode: -1, Failed: true, Panic: "hang: the command did not return and no goroutine can make progress (" + deadlock + ")"}
+	}
+	return res
+}
+
+// execPlain runs the real application (hrapp.GetApp, the unmodified constructor of
 // package main compiled under another package name) on world w.
-func Exec(w World) (res *Result) {
+func execPlain(w World) (res *Result) {
 	execCount++
 	res = &Result{ExitCode: -1}
 	st, err := verifsim.Install(w)
@@ -89,8 +179,6 @@ func Exec(w World) (res *Result) {
 		res.Stats = st.Stats
 		res.Events = st.Events
 	}()
-	enterSUT()
-	defer leaveSUT()
 	app := hrapp.GetApp()
 	app.Writer = verifsim.Stdout()
 	app.ErrWriter = &stderr
